@@ -207,8 +207,18 @@ func c04E2E(res *lib.Result, tier string, root *lib.Rng) error {
 		// members created implicitly by an assignment through undeclared levels: each keeps its own key's place
 		src += "local imt = {}\nimt.aa.bb.cc = 2\nprint(imt.aa.bb, imt.aa, imt.aa.bb.cc)\nIMG = {}\nIMG.dd.ee = 1\nprint(IMG.dd, IMG.dd.ee)\n"
 		defs := "-- shared definitions\nlocal pad1 = 1\nlocal pad2 = 2\nlocal pad3 = 3\nprint(pad1, pad2, pad3)\n" + strings.Repeat("\n", 40+strings.Count(src, "\n")) + "gshared_counter = 10\nfunction gshared_add(n)\n\tgshared_counter = gshared_counter + n\nend\n"
+		// a module that returns an anonymous table, a function that returns one: their members keep their key's place
+		src += "local rq = require(\"mod\")\nprint(rq.alpha, rq.beta)\nlocal function mkt()\n    return { inner = 1, other = 2 }\nend\nlocal rr = mkt()\nprint(rr.inner, rr.other)\n"
+		// types declared in another file: the definition of a type name in an annotation is a place of that file
+		src += "---@type Point\nlocal pt = { px = 1, py = 2 }\n---@param s Shape\n---@param l PointList\nlocal function draw(s, l) print(s.origin.px, l) end\ndraw(nil, { pt })\n"
+		// a file that starts with a byte-order mark (which is not part of its text)
+		src += "print(gbom, gbom2)\n"
+		files := map[string]string{"main.lua": src, "defs.lua": defs,
+			"mod.lua":   "local function helper() end\nreturn { alpha = 1, beta = helper, [\"gamma\"] = 3 }\n",
+			"types.lua": "-- types\n--\n--\n---@class Point\n---@field px number\n---@field py number\n\n---@alias PointList Point[]\n\n---@class Shape\n---@field origin Point\nlocal Shape = {}\nreturn Shape\n",
+			"bom.lua":   "\xEF\xBB\xBFgbom = 1 gbom2 = 2\nprint(gbom)\n"}
 		dir := lib.ScratchDir(fmt.Sprintf("c04e%d", wi))
-		if err := lib.WriteWorkspace(dir, map[string]string{"main.lua": src, "defs.lua": defs}); err != nil {
+		if err := lib.WriteWorkspace(dir, files); err != nil {
 			return err
 		}
 		sess, err := lib.StartSession(dir, lib.AllChecksOptions())
@@ -218,7 +228,29 @@ func c04E2E(res *lib.Result, tier string, root *lib.Rng) error {
 		}
 		sess.DidOpen("main.lua", src)
 		sess.Sync()
-		lines := strings.Split(src, "\n")
+		linesOf := map[string][]string{}
+		for f, t := range files {
+			linesOf[f] = strings.Split(strings.TrimPrefix(t, "\xEF\xBB\xBF"), "\n")
+		}
+		lines := linesOf["main.lua"]
+		checkIn := func(file, what string, rg lib.Range) {
+			lines, ok := linesOf[file]
+			bad := ""
+			switch {
+			case !ok:
+				bad = "not a file of the workspace"
+			case rg.Start.Line < 0 || rg.End.Line >= len(lines) || rg.Start.Line >= len(lines):
+				bad = "line outside the document"
+			case rg.Start.Line > rg.End.Line || (rg.Start.Line == rg.End.Line && rg.Start.Character > rg.End.Character):
+				bad = "start after end"
+			case rg.Start.Character > len(lines[rg.Start.Line]) || rg.End.Character > len(lines[rg.End.Line]):
+				bad = "column beyond the end of its line"
+			}
+			res.Evaluations++
+			if bad != "" {
+				res.AddViolation("impl-vs-spec", fmt.Sprintf("%s: range %s of %s is not inside the document (%s)", what, locOfRange(rg), file, bad), src, false)
+			}
+		}
 		check := func(what string, rg lib.Range) {
 			bad := ""
 			switch {
@@ -246,6 +278,17 @@ func c04E2E(res *lib.Result, tier string, root *lib.Rng) error {
 			}
 		}
 		// the text a one-line range selects
+		textIn := func(file string, rg lib.Range) (string, bool) {
+			lines, ok := linesOf[file]
+			if !ok || rg.Start.Line != rg.End.Line || rg.Start.Line < 0 || rg.Start.Line >= len(lines) {
+				return "", false
+			}
+			l := lines[rg.Start.Line]
+			if rg.Start.Character < 0 || rg.End.Character > len(l) || rg.Start.Character > rg.End.Character {
+				return "", false
+			}
+			return l[rg.Start.Character:rg.End.Character], true
+		}
 		textAt := func(rg lib.Range) (string, bool) {
 			if rg.Start.Line != rg.End.Line || rg.Start.Line < 0 || rg.Start.Line >= len(lines) {
 				return "", false
@@ -260,13 +303,14 @@ func c04E2E(res *lib.Result, tier string, root *lib.Rng) error {
 			// a member that has no declaration of its own falls back to the variable it is reached through:
 			// the names of the access chain to the left of the identifier are acceptable targets too
 			okText := map[string]bool{p.name: true, "\"" + p.name + "\"": true, "'" + p.name + "'": true} // t.k is also written t["k"]
+			okRef := map[string]bool{p.name: true, "\"" + p.name + "\"": true, "'" + p.name + "'": true}  // occurrences (references, highlight): no fall-back
 			{
 				l := lines[p.line]
 				i := p.col
-				for i > 0 && (l[i-1] == '.' || l[i-1] == ':' || l[i-1] == '_' || (l[i-1] >= 'a' && l[i-1] <= 'z') || (l[i-1] >= 'A' && l[i-1] <= 'Z') || (l[i-1] >= '0' && l[i-1] <= '9')) {
+				for i > 0 && (l[i-1] == '.' || l[i-1] == ':' || l[i-1] == '_' || l[i-1] == '[' || l[i-1] == ']' || l[i-1] == '"' || l[i-1] == '\'' || (l[i-1] >= 'a' && l[i-1] <= 'z') || (l[i-1] >= 'A' && l[i-1] <= 'Z') || (l[i-1] >= '0' && l[i-1] <= '9')) {
 					i--
 				}
-				for _, part := range strings.FieldsFunc(l[i:p.col], func(c rune) bool { return c == '.' || c == ':' }) {
+				for _, part := range strings.FieldsFunc(l[i:p.col], func(c rune) bool { return c == '.' || c == ':' || c == '[' || c == ']' || c == '"' || c == '\'' }) {
 					okText[part] = true
 				}
 			}
@@ -279,6 +323,13 @@ func c04E2E(res *lib.Result, tier string, root *lib.Rng) error {
 			}
 			if locs, err := sess.Definition("main.lua", p.line, p.col); err == nil {
 				for _, l := range locs {
+					if f := sess.Rel(l.URI); f != "main.lua" {
+						// a place of another file: inside that file, and on the identifier (a module name leads to the start of its file)
+						checkIn(f, fmt.Sprintf("definition of %s at %d:%d", p.name, p.line, p.col), l.Range)
+						if t, ok := textIn(f, l.Range); ok && !okText[t] && !(p.name == "mod" && l.Range.Start.Line == 0) && !strings.Contains(lines[p.line][:p.col], "require") {
+							res.AddViolation("impl-vs-spec", fmt.Sprintf("definition of %s at %d:%d: the range %s of %s selects %q, not the identifier", p.name, p.line, p.col, locOfRange(l.Range), f, t), src, false)
+						}
+					}
 					if sess.Rel(l.URI) == "main.lua" {
 						check(fmt.Sprintf("definition of %s at %d:%d", p.name, p.line, p.col), l.Range)
 						// the declaration of an identifier is an occurrence of that identifier
@@ -291,18 +342,41 @@ func c04E2E(res *lib.Result, tier string, root *lib.Rng) error {
 			if hls, err := sess.Highlight("main.lua", p.line, p.col); err == nil {
 				for _, h := range hls {
 					check(fmt.Sprintf("highlight of %s at %d:%d", p.name, p.line, p.col), h)
-					if t, ok := textAt(h); ok && p.name != "self" && !okText["self"] && !okText[t] && t != "self" {
+					if t, ok := textAt(h); ok && p.name != "self" && !okText["self"] && !okRef[t] && t != "self" {
 						res.AddViolation("impl-vs-spec", fmt.Sprintf("highlight of %s at %d:%d: the range %s selects %q, not the identifier", p.name, p.line, p.col, locOfRange(h), t), src, false)
 					}
 				}
 			}
 			if locs, err := sess.References("main.lua", p.line, p.col, true); err == nil {
 				for _, l := range locs {
+					if f := sess.Rel(l.URI); f != "main.lua" {
+						checkIn(f, fmt.Sprintf("reference of %s at %d:%d", p.name, p.line, p.col), l.Range)
+						if t, ok := textIn(f, l.Range); ok && !okRef[t] {
+							res.AddViolation("impl-vs-spec", fmt.Sprintf("reference of %s at %d:%d: the range %s of %s selects %q, not the identifier", p.name, p.line, p.col, locOfRange(l.Range), f, t), src, false)
+						}
+					}
 					if sess.Rel(l.URI) == "main.lua" {
 						check(fmt.Sprintf("reference of %s at %d:%d", p.name, p.line, p.col), l.Range)
-						if t, ok := textAt(l.Range); ok && p.name != "self" && !okText["self"] && !okText[t] && t != "self" {
+						if t, ok := textAt(l.Range); ok && p.name != "self" && !okText["self"] && !okRef[t] && t != "self" {
 							res.AddViolation("impl-vs-spec", fmt.Sprintf("reference of %s at %d:%d: the range %s selects %q, not the identifier", p.name, p.line, p.col, locOfRange(l.Range), t), src, false)
 						}
+					}
+				}
+			}
+		}
+		// type names inside annotation comments
+		for ln, l := range lines {
+			if !strings.HasPrefix(l, "---@type ") && !strings.HasPrefix(l, "---@param ") {
+				continue
+			}
+			col := strings.LastIndex(l, " ") + 1
+			name := l[col:]
+			if locs, err := sess.Definition("main.lua", ln, col+1); err == nil {
+				for _, loc := range locs {
+					f := sess.Rel(loc.URI)
+					checkIn(f, fmt.Sprintf("definition of the type %s at %d:%d", name, ln, col+1), loc.Range)
+					if t, ok := textIn(f, loc.Range); ok && t != name {
+						res.AddViolation("impl-vs-spec", fmt.Sprintf("definition of the type %s at %d:%d: the range %s of %s selects %q, not the type name", name, ln, col+1, locOfRange(loc.Range), f, t), src, false)
 					}
 				}
 			}
